@@ -1,4 +1,5 @@
 PROP = {
+    "confirm_scenarios": ['enforced'],
     "coq": ["C16", "C16b"],
     "exhaustive": False,
     "rule": "NewClient: the six schemes x 11 targets x all 2^7 subsets of optional fields (speed, data bits, parity, stop bits, "
